@@ -52,17 +52,22 @@ def create (tip sip thw shw : Bytes) : Arp :=
 /-- `ARP::write_serialization`: `stream.write(header_)` -/
 def write (_cx : Ctx) (a : Arp) (region : Bytes) : Out Bytes := writeAtStart region a.h
 
-def apply (a : Arp) : List String → Out Arp
-  | ["hw_addr_format", v] => do let n ← natArg v; pure ⟨setBE a.h 0 2 n⟩
-  | ["prot_addr_format", v] => do let n ← natArg v; pure ⟨setBE a.h 2 2 n⟩
-  | ["hw_addr_length", v] => do let n ← natArg v; pure ⟨setU8 a.h 4 n⟩
-  | ["prot_addr_length", v] => do let n ← natArg v; pure ⟨setU8 a.h 5 n⟩
-  | ["opcode", v] => do let n ← natArg v; pure ⟨setBE a.h 6 2 n⟩
-  | ["sender_hw_addr", v] => do let b ← hexArgN v 6; pure ⟨patch a.h 8 b⟩
-  | ["sender_ip_addr", v] => do let b ← hexArgN v 4; pure ⟨patch a.h 14 b⟩
-  | ["target_hw_addr", v] => do let b ← hexArgN v 6; pure ⟨patch a.h 18 b⟩
-  | ["target_ip_addr", v] => do let b ← hexArgN v 4; pure ⟨patch a.h 24 b⟩
+/-- the setters, on the raw header struct -/
+def applyH (h : Bytes) : List String → Out Bytes
+  | ["hw_addr_format", v] => setNum h 0 2 v
+  | ["prot_addr_format", v] => setNum h 2 2 v
+  | ["hw_addr_length", v] => setNum h 4 1 v
+  | ["prot_addr_length", v] => setNum h 5 1 v
+  | ["opcode", v] => setNum h 6 2 v
+  | ["sender_hw_addr", v] => setHex h 8 6 v
+  | ["sender_ip_addr", v] => setHex h 14 4 v
+  | ["target_hw_addr", v] => setHex h 18 6 v
+  | ["target_ip_addr", v] => setHex h 24 4 v
   | _ => .throw .stdOther
+
+def apply (a : Arp) (op : List String) : Out Arp := do
+  let h ← applyH a.h op
+  pure ⟨h⟩
 
 def make : List String → Out Arp
   | [] => .ok (create (List.replicate 4 0) (List.replicate 4 0) (List.replicate 6 0) (List.replicate 6 0))
